@@ -91,8 +91,30 @@ func (w *World) lpState() string {
 	return fmt.Sprintf("%s %s %s %d", boolBit(lpp.IsActive), u2s(lpp.MaxRowanLiquidityThreshold), u2s(lpr.CurrentRowanLiquidityThreshold), lpp.EpochLength)
 }
 
+// rewState: accumulated block distribution and, for each stored reward period, what SameRewardPeriod looks at
+func (w *World) rewState() string {
+	k := w.app.ClpKeeper
+	rp := k.GetRewardsParams(w.ctx)
+	var sb strings.Builder
+	fmt.Fprintf(&sb, "%s %d", u2s(k.GetBlockDistributionAccu(w.ctx)), len(rp.RewardPeriods))
+	for _, p := range rp.RewardPeriods {
+		fmt.Fprintf(&sb, " %d %d %s %d", p.RewardPeriodStartBlock, p.RewardPeriodEndBlock, uptr(p.RewardPeriodAllocation), p.RewardPeriodMod)
+	}
+	return sb.String()
+}
+
+// hookStatePre: what the message's handler reads (before); hookState: what it leaves (after)
+func (w *World) hookStatePre(kind string) string {
+	if kind == "AddRewardPeriod" {
+		return w.rewState()
+	}
+	return w.hookState(kind)
+}
+
 func (w *World) hookState(kind string) string {
 	switch kind {
+	case "AddRewardPeriod":
+		return u2s(w.app.ClpKeeper.GetBlockDistributionAccu(w.ctx))
 	case "ModifyPmtpRates", "UpdatePmtpParams":
 		return w.pmState()
 	case "ModifyLiquidityProtectionRates", "UpdateLiquidityProtectionParams":
@@ -103,5 +125,5 @@ func (w *World) hookState(kind string) string {
 
 // <kind> <height> <insidePmtpWindow> <fields…> | <hook state before>
 func (w *World) admLine(m *AdminMsg) string {
-	return fmt.Sprintf("%s %d %s %s | %s", m.kind, w.height, boolBit(w.app.ClpKeeper.IsInsidePmtpWindow(w.ctx)), m.desc, w.hookState(m.kind))
+	return fmt.Sprintf("%s %d %s %s | %s", m.kind, w.height, boolBit(w.app.ClpKeeper.IsInsidePmtpWindow(w.ctx)), m.desc, w.hookStatePre(m.kind))
 }
